@@ -9,7 +9,8 @@ from . import C02_lib as L
 
 SUPPORT = ["Json/Chars.v", "Json/StrScan.v", "Json/NumScan.v", "Json/Fsm.v", "Json/Grammar.v", "Json/Lang.v",
            "Json/StrScanProofs.v", "Json/NumScanProofs.v", "Json/FsmProofs.v", "Json/FsmSound.v",
-           "Json/FsmComplete.v", "Json/Wrappers.v", "Json/Fast.v", "Json/FastProofs.v", "Json/VsProofs.v", "Json/GenComplete.v", "Json/BitTrick.v"]
+           "Json/FsmComplete.v", "Json/Wrappers.v", "Json/Fast.v", "Json/FastProofs.v", "Json/VsProofs.v", "Json/GenComplete.v", "Json/BitTrick.v",
+           "Json/M0MaskList.v", "Json/M0MaskWord.v", "Json/M0Block.v", "Json/AdvanceNsBlocked.v", "Json/NumBlocked.v"]
 
 CLAIM = {
     "gens": [],
@@ -52,10 +53,10 @@ def run(ctx):
         "hand transcription of native/scanning.h into coq/theories/Json/{Fsm,StrScan,NumScan}.v (tied to the shipped blobs only by the correspondence run)",
     ]
     ctx.assumptions = [
-        "advance_ns/lspace_1, the per-block step of advance_string_default (movemask + m0_mask) and the vector rounds of do_skip_number are modelled by their scalar specification; their agreement with the shipped vector code is tested (length sweeps around 16/32/64-byte multiples), not proved",
+        "the executable model uses the scalar specifications of advance_ns/lspace_1, of the per-block step of advance_string_default and of the rounds of do_skip_number; Coq proves the blocked transcriptions equal to them, the correspondence run (length sweeps around 16/32/64-byte multiples) ties both to the shipped blobs",
         "error positions (*p on failure) are not modelled; only accept/reject, the error code and the accepted span are compared",
         "string contents (escapes, control characters, UTF-8) are outside the accept-set theorems, as the property allows",
-        "the backslash-run bit trick (m0_mask) is proved equal to the sequential definition only for a 14-bit transcription (complete sweep); at the shipped widths 32/64 it is tied by the correspondence run",
+        "the vector rounds are proved equal to the scalar specifications over hand transcriptions of the C text: m0_mask (every even width <= 64), the string round (movemask + m0_mask + ctz), advance_ns/lspace (cascade of Simd/Blocked.v), do_skip_number rounds (masks read as popcount / ctz of the prefix: check_bits as `two occurrences`, not at the N level); the SIMD intrinsics themselves (cmpeq/movemask/pshufb, clmul of get_string_maskx64) are read by their documented meaning",
         "Unmarshal into Go types, ast.Loads and the stream of jitdec value parsers are compared with the two-sided oracle only (no model)",
     ]
     tm = {}
